@@ -144,6 +144,23 @@ Fixpoint eval_loc_six (six : Z -> list Z -> list Z) (x : expr) (root : jv) (pvs 
 Definition locate_six (six : Z -> list Z -> list Z) (x : expr) (d : jv) : list pv :=
   match x with [] => [] | _ => eval_loc_six six x d [([], d)] end.
 
+(* Known-finding variant (C11-filter-root-operand-in-locate-walk): which document a filter's $
+   operands see. mode 0: nil (Filter.locate calls evalWithRoot with a nil root); mode 1: the
+   candidate element itself (Expr.Walk goes through Script.Match). *)
+Definition sel_loc_rv (mode : Z) (six : Z -> list Z -> list Z) (f : frag) (last : bool) (root : jv) (x : pv) : list pv :=
+  match f with
+  | FFilter e =>
+      filter (fun pc => existsb is_true (evals e (if mode =? 0 then JNull else snd pc) (snd pc))) (child_locs (fst x) (snd x))
+  | _ => sel_loc_six six f last root x
+  end.
+Fixpoint eval_loc_rv (mode : Z) (six : Z -> list Z -> list Z) (x : expr) (root : jv) (pvs : list pv) : list pv :=
+  match x with
+  | [] => pvs
+  | f :: x' => eval_loc_rv mode six x' root (flat_map (sel_loc_rv mode six f (match x' with [] => true | _ => false end) root) pvs)
+  end.
+Definition locate_rv (mode : Z) (six : Z -> list Z -> list Z) (x : expr) (d : jv) : list pv :=
+  match x with [] => [] | _ => eval_loc_rv mode six x d [([], d)] end.
+
 (* the slice rule of Set, Del, Remove and Modify (set.go, modify.go, slice.go remove): the end
    is INCLUSIVE, defaults to the last element, and negative bounds that fall before the start of
    the array select nothing. Recorded known finding C13-slice-inclusive-end. *)
